@@ -12,6 +12,7 @@ Ops that came with six repairs of pkcs12/pkcs12.go and x509/pkcs7.go (harness/c1
 -/
 import Gmsm.Model.P12Bags
 import Gmsm.Model.P7Parse
+import Driver.P7Emp
 namespace Driver
 open Gmsm
 
@@ -112,6 +113,6 @@ def c17fixDispatch (toks : List String) : Option String :=
   | "p7envkt" :: rest => some (p7envktOp rest)
   | "p7seg" :: rest => some (p7segOp rest)
   | "p7sdbad" :: rest => some (p7sdbadOp rest)
-  | _ => none
+  | _ => p7empDispatch toks   -- p7emp (Driver/P7Emp.lean)
 
 end Driver
